@@ -51,12 +51,24 @@ Definition py_isspace (c : N) : bool :=
   ((9 <=? c) && (c <=? 13)) || ((28 <=? c) && (c <=? 32)) || (c =? 133) || (c =? 160) || (c =? 5760)
   || ((8192 <=? c) && (c <=? 8202)) || (c =? 8232) || (c =? 8233) || (c =? 8239) || (c =? 8287) || (c =? 12288).
 
-Fixpoint lstrip_sp (s : str) : str :=
+(* stripping by a character class, in linear time (List.rev is quadratic, these run on 8 KiB lines) *)
+Fixpoint lstrip_by (p : N -> bool) (s : list N) : list N :=
   match s with
-  | c :: s' => if py_isspace c then lstrip_sp s' else s
+  | c :: s' => if p c then lstrip_by p s' else s
   | [] => []
   end.
-Definition strip_sp (s : str) : str := rev (lstrip_sp (rev (lstrip_sp s))).
+Fixpoint rstrip_by (p : N -> bool) (s : list N) : list N :=
+  match s with
+  | [] => []
+  | c :: s' => match rstrip_by p s' with
+               | [] => if p c then [] else [c]
+               | r => c :: r
+               end
+  end.
+Definition strip_by (p : N -> bool) (s : list N) : list N := rstrip_by p (lstrip_by p s).
+
+Definition lstrip_sp (s : str) : str := lstrip_by py_isspace s.
+Definition strip_sp (s : str) : str := strip_by py_isspace s.
 
 (* maximal prefix without whitespace, and the rest *)
 Fixpoint span_word (s : str) : str * str :=
@@ -90,11 +102,23 @@ Proof.
   intro H. apply andb_true_iff in H as [Hc Hs]. rewrite Hc, (IH Hs). reflexivity.
 Qed.
 
-Lemma lstrip_sp_head s c r : lstrip_sp s = c :: r -> py_isspace c = false.
+Lemma lstrip_by_head p s c r : lstrip_by p s = c :: r -> p c = false.
 Proof.
-  induction s as [|d s IH]; cbn [lstrip_sp]; [discriminate|].
-  destruct (py_isspace d) eqn:E; [exact IH|]. intro H. inversion H; subst. exact E.
+  induction s as [|d s IH]; cbn [lstrip_by]; [discriminate|].
+  destruct (p d) eqn:E; [exact IH|]. intro H. inversion H; subst. exact E.
 Qed.
+
+Lemma lstrip_by_len p s : (length (lstrip_by p s) <= length s)%nat.
+Proof. induction s as [|c s IH]; cbn [lstrip_by length]; [lia|]. destruct (p c); cbn [length]; lia. Qed.
+
+Lemma rstrip_by_len p s : (length (rstrip_by p s) <= length s)%nat.
+Proof.
+  induction s as [|c s IH]; cbn [rstrip_by length]; [lia|].
+  destruct (rstrip_by p s) as [|r0 r]; [destruct (p c); cbn [length]; lia|cbn [length] in *; lia].
+Qed.
+
+Lemma strip_by_len p s : (length (strip_by p s) <= length s)%nat.
+Proof. unfold strip_by. pose proof (rstrip_by_len p (lstrip_by p s)). pose proof (lstrip_by_len p s). lia. Qed.
 
 Lemma span_word_app s w r : span_word s = (w, r) -> s = w ++ r.
 Proof.
